@@ -1,8 +1,302 @@
 import MidnightZK.Model.Common
-/-! Line-protocol handler of property C15 (stub: answers `unimplemented`). -/
-namespace MidnightZK.C15.Driver
+import MidnightZK.Model.C12.Zn
+import MidnightZK.Model.C12.Curve
+import MidnightZK.Model.C15.Batch
+import MidnightZK.Model.C15.Accumulator
+/-!
+Line-protocol handler of property C15.
 
-def answer (_line : String) : String := "unimplemented"
+Scalars are elements of the BLS12-381 scalar field (`Zn r`), group elements are given by their
+discrete logarithm to the generator of G1 (`Zn r` as a module over itself); where the
+implementation prints a point, the driver prints `[k]·G` in affine coordinates with the
+reference curve arithmetic of `Model/C12/Curve.lean`.
+
+Text formats (no spaces inside a token):
+* label: `a<i>` advice, `i<i>` instance, `f<i>` fixed, `p<i>` permutation, `n` no label,
+  `c<hex of the UTF-8 bytes>` custom;
+* MSMKZG: `-` or `scalar:base:label,…`; DualMSM: `<left>|<right>`;
+* Msm: `<terms>;<fixed>` with terms `-` or `scalar:base,…` and fixed `-` or `name=scalar,…`;
+  Accumulator: `<lhs>|<rhs>`; fixed-base map: `-` or `name=base,…`.
+-/
+namespace MidnightZK.C15.Driver
+open MidnightZK MidnightZK.C15
+
+def R : Nat := MidnightZK.C12.bls12381G1.r
+abbrev Fr := MidnightZK.C12.Zn R
+def fr (n : Nat) : Fr := MidnightZK.C12.Zn.ofNat R n
+
+/-- `G1` through discrete logarithms: `s • b = s·b mod r`. -/
+instance : SMul Fr Fr := ⟨fun a b => a * b⟩
+
+def splitList (s : String) (sep : String) : List String :=
+  if s = "-" ∨ s.isEmpty then [] else s.splitOn sep
+
+def parseFr (s : String) : Option Fr := (parseNat? s).map fr
+
+def hexBytesToString (s : String) : Option String :=
+  let cs := s.toList
+  let rec go : List Char → List Char → Option (List Char)
+    | [], acc => some acc.reverse
+    | [_], _ => none
+    | a :: b :: t, acc =>
+      match parseHex? (String.ofList [a, b]) with
+      | some n => go t (Char.ofNat n :: acc)
+      | none => none
+  (go cs []).map String.ofList
+
+def parseLabel (s : String) : Option Label :=
+  if s = "n" then some .noLabel else
+  let rest := (s.drop 1).toString
+  match s.toList.head? with
+  | some 'a' => rest.toNat?.map .advice
+  | some 'i' => rest.toNat?.map .instance
+  | some 'f' => rest.toNat?.map .fixed
+  | some 'p' => rest.toNat?.map .perm
+  | some 'c' => if rest.isEmpty then some (.custom "") else (hexBytesToString rest).map .custom
+  | _ => none
+
+def stringToHexBytes (s : String) : String :=
+  String.ofList (s.toList.flatMap (fun c => [hexDigit (c.toNat / 16 % 16), hexDigit (c.toNat % 16)]))
+
+def fmtLabel : Label → String
+  | .advice i => s!"a{i}"
+  | .instance i => s!"i{i}"
+  | .fixed i => s!"f{i}"
+  | .perm i => s!"p{i}"
+  | .custom s => "c" ++ stringToHexBytes s
+  | .noLabel => "n"
+
+def parseTerm (s : String) : Option (Term Fr Fr) :=
+  match s.splitOn ":" with
+  | [sc, b, l] => do
+    let sc ← parseFr sc; let b ← parseFr b; let l ← parseLabel l
+    pure ⟨sc, b, l⟩
+  | _ => none
+
+def parseMsmKzg (s : String) : Option (MsmKzg Fr Fr) := (splitList s ",").mapM parseTerm
+
+def parseDual (s : String) : Option (DualMsm Fr Fr) :=
+  match s.splitOn "|" with
+  | [l, r] => do let l ← parseMsmKzg l; let r ← parseMsmKzg r; pure ⟨l, r⟩
+  | _ => none
+
+def fmtMsmKzg (m : MsmKzg Fr Fr) : String :=
+  if m.isEmpty then "-" else
+  ",".intercalate (m.map (fun t => s!"{toHex t.scalar.val}:{toHex t.base.val}:{fmtLabel t.label}"))
+
+def fmtDual (d : DualMsm Fr Fr) : String := fmtMsmKzg d.left ++ "|" ++ fmtMsmKzg d.right
+
+def parsePair (s : String) : Option (Fr × Fr) :=
+  match s.splitOn ":" with
+  | [a, b] => do let a ← parseFr a; let b ← parseFr b; pure (a, b)
+  | _ => none
+
+def parseNamed (s : String) : Option (String × Fr) :=
+  match s.splitOn "=" with
+  | [k, v] => do let v ← parseFr v; pure (k, v)
+  | _ => none
+
+/-- A map given in the text is inserted entry by entry (as `BTreeMap::insert` would). -/
+def parseMap (s : String) : Option (List (String × Fr)) := do
+  let es ← (splitList s ",").mapM parseNamed
+  pure (es.foldl (fun m kv => bmInsert kv.1 kv.2 m) [])
+
+def parseMsm (s : String) : Option (Msm Fr Fr) :=
+  match s.splitOn ";" with
+  | [t, f] => do
+    let t ← (splitList t ",").mapM parsePair
+    let f ← parseMap f
+    pure ⟨t, f⟩
+  | _ => none
+
+def parseAcc (s : String) : Option (Accumulator Fr Fr) :=
+  match s.splitOn "|" with
+  | [l, r] => do let l ← parseMsm l; let r ← parseMsm r; pure ⟨l, r⟩
+  | _ => none
+
+def pointStr (k : Fr) : String :=
+  let c := MidnightZK.C12.bls12381G1
+  "@" ++ MidnightZK.C12.fmtAffine (MidnightZK.C12.toAffine c.p (c.mulGen k.val))
+
+def fmtMsm (pts : Bool) (m : Msm Fr Fr) : String :=
+  let t := if m.terms.isEmpty then "-" else
+    ",".intercalate (m.terms.map (fun t =>
+      s!"{toHex t.1.val}:{if pts then pointStr t.2 else toHex t.2.val}"))
+  let f := if m.fixed.isEmpty then "-" else
+    ",".intercalate (m.fixed.map (fun kv => s!"{kv.1}={toHex kv.2.val}"))
+  t ++ ";" ++ f
+
+def fmtAcc (pts : Bool) (a : Accumulator Fr Fr) : String := fmtMsm pts a.lhs ++ "|" ++ fmtMsm pts a.rhs
+
+def fmtPolyRes : Except PolyErr Unit → String
+  | .ok () => "ok"
+  | .error .openingError => "err:OpeningError"
+  | .error .samplingError => "err:SamplingError"
+  | .error .duplicatedQuery => "err:DuplicatedQuery"
+
+def fmtErr : Err → String
+  | .invalidInstances => "InvalidInstances"
+  | .opening => "Opening"
+  | .transcript => "Transcript"
+  | .other s => s
+
+def parseErr (s : String) : Err :=
+  if s = "InvalidInstances" then .invalidInstances
+  else if s = "Opening" then .opening
+  else if s = "Transcript" then .transcript
+  else .other s
+
+def fmtRes : Except Err Unit → String
+  | .ok () => "ok"
+  | .error e => "err:" ++ fmtErr e
+
+/-- Sequence of `s=<factor>` (scale) and `a=<dual>` (add_msm) applied to a guard. -/
+def applyOps : DualMsm Fr Fr → List String → Option (DualMsm Fr Fr)
+  | d, [] => some d
+  | d, op :: rest =>
+    if op.startsWith "s=" then
+      match parseFr (op.drop 2).toString with
+      | some f => applyOps (d.scale f) rest
+      | none => none
+    else if op.startsWith "a=" then
+      match parseDual (op.drop 2).toString with
+      | some o => applyOps (d.addMsm o) rest
+      | none => none
+    else none
+
+/-- Class of a real batch member: `L` wrong instance length, `E:<error>` `prepare` fails,
+`T` trailing bytes, `B` the guard fails its pairing check, `G` good. The member is realised in
+the model over the one-dimensional module with `τ = 1`: a good guard is `(1·1, 1·1)`, a bad one
+`(1·1, 1·0)`. -/
+def classMember (c : String) : Option (Member Fr Fr) :=
+  let good : DualMsm Fr Fr := ⟨[⟨fr 1, fr 1, .noLabel⟩], [⟨fr 1, fr 1, .noLabel⟩]⟩
+  let bad : DualMsm Fr Fr := ⟨[⟨fr 1, fr 1, .noLabel⟩], [⟨fr 1, fr 0, .noLabel⟩]⟩
+  if c = "L" then some ⟨false, .ok good, false⟩
+  else if c = "T" then some ⟨true, .ok good, true⟩
+  else if c = "B" then some ⟨true, .ok bad, false⟩
+  else if c = "G" then some ⟨true, .ok good, false⟩
+  else if c.startsWith "E:" then some ⟨true, .error (parseErr (c.drop 2).toString), false⟩
+  else none
+
+def parseMember (s : String) : Option (Member Fr Fr) :=
+  -- `<piLenOk>;<trailing>;E<err>` or `<piLenOk>;<trailing>;D<dual>`
+  match s.splitOn ";" with
+  | [p, t, body] =>
+    let pb := p = "1"
+    let tb := t = "1"
+    if (p ≠ "0" ∧ p ≠ "1") ∨ (t ≠ "0" ∧ t ≠ "1") then none
+    else if body.startsWith "E" then some ⟨pb, .error (parseErr (body.drop 1).toString), tb⟩
+    else if body.startsWith "D" then (parseDual (body.drop 1).toString).map (fun d => ⟨pb, .ok d, tb⟩)
+    else none
+  | _ => none
+
+def fmtTEvent : TEvent Fr → String
+  | .init => "init"
+  | .absorb x => "absorb:" ++ toHex x.val
+  | .squeeze => "squeeze"
+
+def fmtOptBool : Option Bool → String
+  | some b => fmtBool b
+  | none => "panic"
+
+def answer (line : String) : String :=
+  match words line with
+  | ["msm-eval", m] =>
+    match parseMsmKzg m with
+    | some m => pointStr m.eval ++ " " ++ fmtBool m.check
+    | none => "bad-op"
+  | "dual-seq" :: mode :: tau :: d0 :: ops =>
+    match parseFr tau, parseDual d0 with
+    | some tau, some d0 =>
+      match applyOps d0 ops with
+      | some d =>
+        if mode = "check" then fmtDual d ++ " " ++ fmtBool (d.check tau)
+        else if mode = "struct" then fmtDual d
+        else "bad-op"
+      | none => "bad-op"
+    | _, _ => "bad-op"
+  | "horner" :: tau :: r :: ds =>
+    -- the loop of `batch_verify` on explicit guards
+    match parseFr tau, parseFr r, ds.mapM parseDual with
+    | some tau, some r, some ds =>
+      match hornerFold r ds with
+      | some acc => fmtDual acc ++ " " ++ fmtBool (acc.check tau)
+      | none => "empty"
+    | _, _, _ => "bad-op"
+  | "gbatch" :: taus :: ds =>
+    match (splitList taus ",").mapM parseFr, ds.mapM parseDual with
+    | some taus, some ds => fmtPolyRes (guardBatchVerify ds taus)
+    | _, _ => "bad-op"
+  | "batch" :: tau :: r :: np :: npr :: ms =>
+    -- full model of `batch_verify` / `verify` on explicit members
+    match parseFr tau, parseFr r, np.toNat?, npr.toNat?, ms.mapM parseMember with
+    | some tau, some r, some np, some npr, some ms =>
+      s!"batch={fmtRes (batchVerify tau np npr ms r)} verdict={fmtRes (batchVerdict tau np npr ms)} each={join (ms.map (fun m => fmtRes (verifyOne tau m)))}"
+    | _, _, _, _, _ => "bad-op"
+  | "rbatch" :: np :: npr :: cs =>
+    match np.toNat?, npr.toNat?, cs.mapM classMember with
+    | some np, some npr, some ms =>
+      s!"batch={fmtRes (batchVerdict (fr 1) np npr ms)} each={join (ms.map (fun m => fmtRes (verifyOne (fr 1) m)))}"
+    | _, _, _ => "bad-op"
+  | "rsched" :: ss =>
+    match ss.mapM parseFr with
+    | some ss => " ".intercalate ((rSchedule ss).map fmtTEvent)
+    | none => "bad-op"
+  | ["fromdual", pfx, d, fb] =>
+    match parseDual d, parseMap fb with
+    | some d, some fb =>
+      match fromDualMsm d pfx fb with
+      | some a => fmtAcc false a
+      | none => "panic"
+    | _, _ => "bad-op"
+  | ["acc-check", tau, a, fb] =>
+    match parseFr tau, parseAcc a, parseMap fb with
+    | some tau, some a, some fb => fmtOptBool (a.check tau fb)
+    | _, _, _ => "bad-op"
+  | ["msm-acc-eval", m, fb] =>
+    match parseMsm m, parseMap fb with
+    | some m, some fb =>
+      match m.eval fb with
+      | some k => pointStr k
+      | none => "panic"
+    | _, _ => "bad-op"
+  | ["acc-collapse", a] =>
+    match parseAcc a with
+    | some a => fmtAcc true a.collapse
+    | none => "bad-op"
+  | ["msm-accumulate", r, m1, m2] =>
+    match parseFr r, parseMsm m1, parseMsm m2 with
+    | some r, some m1, some m2 => fmtMsm false (m1.accumulateWithR m2 r)
+    | _, _, _ => "bad-op"
+  | "accumulate" :: r :: accs =>
+    -- `r` is the sponge output on `accumulateHashInput` (computed by the harness with the real
+    -- sponge over the real `as_public_input`, see `accpi`)
+    match parseFr r, accs.mapM parseAcc with
+    | some r, some accs =>
+      match Accumulator.accumulate (fun _ => r) (fun _ => []) accs with
+      | some a => fmtAcc false a
+      | none => "panic"
+    | _, _ => "bad-op"
+  | ["accpi", a, enc] =>
+    -- `enc`: `base=f/f/…,…`
+    match parseAcc a with
+    | some a =>
+      let entries := (splitList enc ",").mapM (fun e =>
+        match e.splitOn "=" with
+        | [b, fs] => do
+          let b ← parseFr b
+          let fs ← (splitList fs "/").mapM parseFr
+          pure (b, fs)
+        | _ => none)
+      match entries with
+      | some tbl =>
+        let encf : Fr → List Fr := fun b => ((tbl.find? (fun e => e.1 = b)).map (·.2)).getD []
+        fmtHexList ((a.asPublicInput encf).map (·.val))
+      | none => "bad-op"
+    | none => "bad-op"
+  | _ => "bad-op"
+where
+  join (l : List String) : String := if l.isEmpty then "-" else ",".intercalate l
 
 end MidnightZK.C15.Driver
 
